@@ -1181,8 +1181,8 @@ def search_cases(broken, rng):
     yield from _conc_cases()
     yield from _coreborrow_cases()
     for case in broken:
-        if case.get("family") in ("conc", "coreborrow"):
-            continue
+        if case.get("family") in ("conc", "coreborrow") or "u" not in case:
+            continue        # family cases (borrowsend, ...) carry their own description: no neighbours to derive
         for kind in U_KINDS:
             u = dict(kind, script=case["u"]["script"])
             yield {"u": u, "ops": [op for op in case["ops"] if op[0] != "ncancel" or kind.get("susp")]}
